@@ -178,9 +178,12 @@ def check(model, rep, tier):
                   'wrong object cached')
       elif k == 'recurse':
         # (what the two merged arguments are is decided by CALL-PARTIAL)
-        ok = a[:1] == ['f.func'] and len(c.args) == 3 and all(
-            isinstance(x, ast.Name) for x in c.args[1:3])
-        kw = {x.arg: core.norm(x.value) for x in c.keywords}
+        from sa import inline as _inl
+        b_ = _inl._bind(cc.node, c, False) or {}
+        kw = {k_: core.norm(v_) for k_, v_ in b_.items()}
+        ps_ = cc.params()
+        ok = kw.get(ps_[0]) == 'f.func' and all(
+            isinstance(b_.get(p_), ast.Name) for p_ in ps_[1:3])
         ok = ok and kw.get('caller_fn_scope') == 'caller_fn_scope' and \
             kw.get('options') == 'options'
         rep.check(ok, 'CALL-FAITHFUL', site,
@@ -198,7 +201,20 @@ def check(model, rep, tier):
                   '[, **kwargs]', {'args': a}, line=c.lineno)
       elif k == 'builtin':
         st = [core.norm(x.value) for x in c.args if isinstance(x, ast.Starred)]
-        kws = [core.norm(x.value) for x in c.keywords if x.arg is None]
+        def kw_form(v):
+          # kwargs, or kwargs with {} standing in for an empty / missing mapping
+          v = tpl.expand(cc, v, c)
+          empty = lambda e: isinstance(e, ast.Dict) and not e.keys
+          if core.norm(v) == 'kwargs':
+            return 'kwargs'
+          if isinstance(v, ast.IfExp) and core.norm(v.test) == 'kwargs' and \
+              core.norm(v.body) == 'kwargs' and empty(v.orelse):
+            return 'kwargs'
+          if isinstance(v, ast.BoolOp) and isinstance(v.op, ast.Or) and len(v.values) == 2 \
+              and core.norm(v.values[0]) == 'kwargs' and empty(v.values[1]):
+            return 'kwargs'
+          return core.norm(v)
+        kws = [kw_form(x.value) for x in c.keywords if x.arg is None]
         ok = st == ['args'] and kws in ([], ['kwargs']) and \
             core.norm(_callee(c, cc).args[0]) == 'f'
         rep.check(ok, 'CALL-FAITHFUL', site,
